@@ -1,6 +1,109 @@
-import HranoModel.Model.Options
-import HranoModel.Model.Sink
-import HranoModel.Model.Chan
-/-! C11 property theorems (statements only in this file; helper lemmas live in Lemmas/) -/
+import HranoModel.Lemmas.ResolveAll
+/-!
+C11 — the depth limit rejects cycles, accepts legitimate nesting, independent of order.
+
+Property theorems only (helper lemmas: `Lemmas/Resolve*.lean`).  `Chain B x k`: a chain of `k`
+ingredient references starts at `x` (the last name of a chain need not be a recipe: the level test
+precedes the existence test, so `a: b 1` with `N = 1` is a chain of one reference and is rejected).
+The theorems are about the model of the code after the fix recorded in known-findings.txt.
+-/
 namespace Hrano.C11
+open Hrano Hrano.Spec Hrano.Resolver
+
+/-- **Exactness, for every visiting order.**  Resolution with limit `N` fails — with the depth error —
+    exactly when a chain of `N` or more references starts at one of the visited names. -/
+theorem depth_exact (B : Book) (N : Nat) (order : List Bytes) :
+    resolveAll (N : Int) B order = .error .depth ↔ ∃ n ∈ order, Chain B n N := by
+  constructor
+  · intro herr
+    -- otherwise every visited name resolves and the run succeeds
+    apply Classical.byContradiction
+    intro hno
+    have hall : ∀ n ∈ order, specNode B N n ≠ none := by
+      intro n hn hnone
+      exact hno ⟨n, hn, (specNode_none_iff_chain B N n).mp hnone⟩
+    obtain ⟨st', hgo, _⟩ := go_ok B N order _ (inv_init B) hall
+    have : resolveAll (N : Int) B order = .ok st'.db := hgo
+    rw [this] at herr
+    cases herr
+  · rintro ⟨n, hn, hc⟩
+    exact go_err B N order _ (inv_init B) ⟨n, hn, (specNode_none_iff_chain B N n).mpr hc⟩
+
+/-- the outcome does not depend on the order in which the recipes are visited -/
+theorem outcome_order_independent (B : Book) (N : Nat) (o₁ o₂ : List Bytes) (h : ∀ n, n ∈ o₁ ↔ n ∈ o₂) :
+    (resolveAll (N : Int) B o₁ = .error .depth ↔ resolveAll (N : Int) B o₂ = .error .depth) := by
+  rw [depth_exact, depth_exact]
+  constructor
+  · rintro ⟨n, hn, hc⟩; exact ⟨n, (h n).mp hn, hc⟩
+  · rintro ⟨n, hn, hc⟩; exact ⟨n, (h n).mpr hn, hc⟩
+
+/-- there is no other failure: resolution either succeeds or reports the depth error (it always terminates:
+    the functions are total, recursion depth is bounded by the fuel `N`) -/
+theorem only_depth_error (B : Book) (N : Int) (order : List Bytes) (e : RErr) (_ : resolveAll N B order = .error e) :
+    e = .depth := by
+  cases e; rfl
+
+/-- chains are closed under shortening -/
+theorem chain_shorter (B : Book) : ∀ (k : Nat) (x : Bytes), Chain B x (k + 1) → Chain B x k := by
+  intro k
+  induction k with
+  | zero => intro x _; exact Chain.zero x
+  | succ k ih =>
+    intro x h
+    cases h with
+    | step _ els e _ hl he hc => exact Chain.step x els e k hl he (ih e.name hc)
+
+theorem chain_le (B : Book) (x : Bytes) (k m : Nat) (hle : m ≤ k) (h : Chain B x k) : Chain B x m := by
+  induction hle with
+  | refl => exact h
+  | step _ ih => exact ih (chain_shorter B _ x h)
+
+/-- `Reach B a b k`: `b` is reached from `a` by `k` references through recipes -/
+inductive Reach (B : Book) : Bytes → Bytes → Nat → Prop where
+  | refl (a : Bytes) : Reach B a a 0
+  | step (a : Bytes) (els : Elements) (e : Element) (b : Bytes) (k : Nat) :
+      B.lookup a = some els → e ∈ els → Reach B e.name b k → Reach B a b (k + 1)
+
+theorem chain_of_reach (B : Book) (a b : Bytes) (k m : Nat) (hr : Reach B a b k) (hc : Chain B b m) : Chain B a (k + m) := by
+  induction hr with
+  | refl a => simpa using hc
+  | step a els e b k hl he _ ih =>
+    have := ih hc
+    have h2 : k + 1 + m = (k + m) + 1 := by omega
+    rw [h2]
+    exact Chain.step a els e (k + m) hl he this
+
+/-- **Cyclic recipes are always rejected**: a recipe that reaches itself through one or more references has
+    chains of every length, so every limit `N` rejects every order that visits it. -/
+theorem cyclic_fails (B : Book) (N : Nat) (order : List Bytes) (x : Bytes) (k : Nat)
+    (hcyc : Reach B x x (k + 1)) (hx : x ∈ order) : resolveAll (N : Int) B order = .error .depth := by
+  have hall : ∀ j : Nat, Chain B x (j * (k + 1)) := by
+    intro j
+    induction j with
+    | zero => simpa using Chain.zero x
+    | succ j ih =>
+      have := chain_of_reach B x x (k + 1) (j * (k + 1)) hcyc ih
+      have h2 : (j + 1) * (k + 1) = k + 1 + j * (k + 1) := by rw [Nat.succ_mul]; omega
+      rw [h2]; exact this
+  have hN : Chain B x N := chain_le B x (N * (k + 1)) N (by
+    have : N * 1 ≤ N * (k + 1) := Nat.mul_le_mul_left N (by omega)
+    omega) (hall N)
+  exact (depth_exact B N order).mpr ⟨x, hx, hN⟩
+
+/-- legitimate nesting is accepted: if every chain from a visited name is shorter than `N`, resolution succeeds -/
+theorem shallow_succeeds (B : Book) (N : Nat) (order : List Bytes) (h : ∀ n ∈ order, ¬ Chain B n N) :
+    ∃ B', resolveAll (N : Int) B order = .ok B' := by
+  have hall : ∀ n ∈ order, specNode B N n ≠ none := fun n hn hnone => h n hn ((specNode_none_iff_chain B N n).mp hnone)
+  obtain ⟨st', hgo, _⟩ := go_ok B N order _ (inv_init B) hall
+  exact ⟨st'.db, hgo⟩
+
+/-! non-vacuity: the chain a → b → c → leaf has 3 references; N = 3 rejects it in both orders, N = 4 accepts it
+    in both orders (the unchanged code accepted it bottom-up with N = 3) -/
+def chain3 : Book := [([97], [⟨[98], 1⟩]), ([98], [⟨[99], 1⟩]), ([99], [⟨[120], 1⟩])]
+def outcome (n : Int) (order : List Bytes) : Bool := match resolveAll n chain3 order with | .ok _ => true | .error _ => false
+example : outcome 3 [[97], [98], [99]] = false ∧ outcome 3 [[99], [98], [97]] = false := by decide +kernel
+example : outcome 4 [[97], [98], [99]] = true ∧ outcome 4 [[99], [98], [97]] = true := by decide +kernel
+example : Reach [([97], [⟨[98], 1⟩]), ([98], [⟨[97], 1⟩])] [97] [97] 2 :=
+  Reach.step _ _ ⟨[98], 1⟩ _ 1 rfl (by simp) (Reach.step _ _ ⟨[97], 1⟩ _ 0 rfl (by simp) (Reach.refl _))
+
 end Hrano.C11
